@@ -35,6 +35,9 @@ fn prefix_profile() -> Profile {
         w_pub: [2, 7, 6],
         payload_max: 120,
         auto_broker_pct: 20,
+        max_packet: vec![None, None, Some(24), Some(80)],
+        keepalive: vec![0, 0, 2, 4, 30],
+        max_qos: vec![None, None, Some(0), Some(1)],
         ..Profile::default()
     }
 }
@@ -62,6 +65,8 @@ fn final_steps() -> Vec<Step> {
             Step::PollIdle { max: 20 },
             Step::Publish(PubSpec::simple(1, 1, 0, 2)),
             Step::PollIdle { max: 20 },
+            Step::Publish(PubSpec::simple(1, 2, 100, 3)),
+            Step::PollIdle { max: 20 },
             Step::Subscribe { filters: vec![(TopicSpec::new(1, 0), so)], props: vec![], cancel: None },
             Step::PollIdle { max: 20 },
             // the whole send window / all slots must be available again
@@ -83,8 +88,20 @@ fn final_steps() -> Vec<Step> {
 
 pub fn strategy() -> BoxedStrategy<Case> {
     let p = prefix_profile();
-    (cgen::case(&p), 0u8..10, 0u8..10)
-        .prop_map(|(mut case, k, same)| {
+    (cgen::case(&p), 0u8..10, 0u8..10, 0u8..10, 0u8..10)
+        .prop_map(|(mut case, k, same, burst, nolimits)| {
+            if burst < 2 {
+                // an extra healthy connection on which the broker first completes what it has in
+                // flight and then fills the client's inbound QoS 2 window (no PUBREL yet)
+                let mut steps = vec![Step::SetBroker(BrokerMode::AutoAck), Step::PollIdle { max: 60 }, Step::SetBroker(BrokerMode::Scripted)];
+                for i in 0..8u8 {
+                    steps.push(Step::Broker(BrokerAct::Deliver { qos: 2, retain: false, topic: TopicSpec::new(2, i), payload: PayloadSpec::new(1, i), props: vec![], redeliver: None }));
+                    steps.push(Step::PollIdle { max: 6 });
+                }
+                let mut extra = final_script(&case.conns[0].connect, true);
+                extra.steps = steps;
+                case.conns.push(extra);
+            }
             // the connection counts as "not lost" only if nothing in its script ends it or leaves
             // a fault armed on the transport
             let last_ok = case.conns.last().is_some_and(|c| {
@@ -99,7 +116,11 @@ pub fn strategy() -> BoxedStrategy<Case> {
                 last.end = EndHow::Drop;
             } else {
                 // mostly the broker still has the session; sometimes it answers with a fresh one
-                let fin = final_script(&case.conns[0].connect, k < 7);
+                let mut fin = final_script(&case.conns[0].connect, k < 7);
+                if nolimits < 5 {
+                    // the broker announces no limits this time: nothing learned earlier may stick
+                    fin.connect.props = ConnackProps::default();
+                }
                 case.conns.push(fin);
             }
             case
